@@ -120,3 +120,32 @@ pub fn run(toks: &[&str]) -> Option<String> {
     }
     Some(format!("resp=[{}]{}", out.join(";"), status))
 }
+
+
+/// `walk <root hex> <consumer delay us> <stall after k entries> <stall ms>`: the real `parallel_walk_dir` (worker count from
+/// RJRSSYNC_VERIF_WALK_THREADS) with a consumer whose pace is scripted: it sleeps `delay` microseconds before every entry and
+/// stalls once, for `stall ms`, after `k` entries (so that the bounded result queue fills while workers go on).
+/// Answer: `walk=[<path hex>:<D|F|L|O>;...] end=<ok|err:hex>` in the order the consumer received the entries.
+pub fn walk(toks: &[&str]) -> Option<String> {
+    use crate::parallel_walk_dir::{parallel_walk_dir, FilterResult};
+    let mut t = Toks::new(toks);
+    let root = std::path::PathBuf::from(t.string()?);
+    let delay = t.nat()? as u64; let stall_after = t.nat()?; let stall_ms = t.nat()? as u64;
+    let rx = parallel_walk_dir(&root, |_e| Ok(FilterResult { skip: false, additional_data: () }));
+    let mut out = vec![]; let mut end = "ok".to_string(); let mut n = 0usize;
+    while let Ok(r) = rx.recv() {
+        if delay > 0 { std::thread::sleep(Duration::from_micros(delay)); }
+        n += 1;
+        if n == stall_after && stall_ms > 0 { std::thread::sleep(Duration::from_millis(stall_ms)); }
+        match r {
+            Ok(e) => {
+                let p = e.dir_entry.path();
+                let rel = p.strip_prefix(&root).unwrap_or(&p).to_string_lossy().to_string();
+                let k = if e.file_type.is_dir() { "D" } else if e.file_type.is_file() { "F" } else if e.file_type.is_symlink() { "L" } else { "O" };
+                out.push(format!("{}:{}", hexs(&rel), k));
+            }
+            Err(e) => { end = format!("err:{}", hexs(&e)); break; }
+        }
+    }
+    Some(format!("walk=[{}] end={}", out.join(";"), end))
+}
